@@ -11,6 +11,15 @@ CLAIMED = {
             "reconstruction oracle; every 2-way split of five short requests is enumerated completely. A clean batch is "
             "evidence, not proof.",
             "h11/h2 parsing trusted; requests restricted to a conservative well-formed grammar; fake kernel models TCP as the runtimes see it"),
+    "C02": ("5/C02", "Seeded search over response programs (status, headers, chunkings, trailers, early hints) x client pace "
+            "(stalls, tiny/zero HTTP/2 windows with dribbled credit, short socket buffers, short writes) on both workers; an own "
+            "client-side parser is compared with what the application sent. Evidence, not proof.",
+            "own HTTP/1 parser and hyperframe/hpack based HTTP/2 peer are trusted; applications declare a correct content-length or none"),
+    "C03": ("5/C03", "Seeded search over closing orders (client FIN/RST/close at any byte, failing writes, keep-alive expiry, "
+            "Connection: close, shutdown trigger) x application shapes (early, late, continuing after disconnect) with an "
+            "automaton over everything delivered to each instance, send outcomes and access-log counts. Two genuine defects are "
+            "recorded as known findings (F06, F07).",
+            "instances already finished at closure, instances killed by the forced cancel at shutdown, and HTTP/1 instances whose reader is parked behind pipelined bytes are not owed a disconnect"),
 }
 
 NOT_APPLICABLE = {
